@@ -14,6 +14,7 @@ import (
 	"time"
 	"unicode/utf8"
 
+	goframe "github.com/kishyassin/goframe"
 	"github.com/kishyassin/goframe/dataframe"
 )
 
@@ -256,6 +257,9 @@ func Snapshot(df *dataframe.DataFrame) Frame {
 // so that in-place appends through an aliasing slice would be visible.
 func Build(f Frame) *dataframe.DataFrame {
 	df := dataframe.NewDataFrame()
+	if len(f.Cols)%2 == 1 {
+		df = goframe.NewDataFrame() // the root package's wrapper
+	}
 	for _, c := range f.Cols {
 		data := []any{}
 		for _, v := range c.Data {
